@@ -6,7 +6,7 @@ TOP and both successors of a switch on TOP are explored.  Documents are tracked 
 atoms (converted child, own text of a node, literal, comment, space, hard/soft line ...).  This is
 constant propagation on a finite lattice over the CFG: no execution of the formatter, no solver.
 """
-import copy, re
+import copy, os, re
 import grammar
 from mirfacts import callee_path, resolved_id, resolved_path, callee_str
 from tyutil import adt_lookup
@@ -315,11 +315,16 @@ class Interp:
         done = []
         work = [machine]
         steps = 0
+        peak = 0
+        stats = os.environ.get('KF_STATS')
+        root = machine.frames[0].body.short if machine.frames else '?'
         while work:
             m = work.pop()
             while True:
                 steps += 1
                 if steps > self.max_steps:
+                    if stats:
+                        open(stats, 'a').write('%s\tSTEPLIMIT\t%d/%d\t%d/%d\n' % (root, peak, self.max_paths, steps, self.max_steps))
                     raise PathLimit('step limit')
                 if m.dead or m.finished or not m.frames:
                     break
@@ -331,10 +336,16 @@ class Interp:
                 forks = self.step(m)
                 if forks:
                     work.extend(forks)
+                if len(done) + len(work) > peak:
+                    peak = len(done) + len(work)
                 if len(done) + len(work) > self.max_paths:
+                    if stats:
+                        open(stats, 'a').write('%s\tPATHLIMIT\t%d/%d\t%d/%d\n' % (root, peak, self.max_paths, steps, self.max_steps))
                     raise PathLimit('more than %d paths' % self.max_paths)
             if not m.dead:
                 done.append(m)
+        if stats:
+            open(stats, 'a').write('%s\tok\t%d/%d\t%d/%d\n' % (root, peak, self.max_paths, steps, self.max_steps))
         return done
 
     def step(self, m):
@@ -583,7 +594,7 @@ class Interp:
             if 'fn' in op:
                 return FnVal(op['fn']['def']['id'], op['fn']['def']['path'])
             if 'promoted' in op:
-                pb = self.w.bodies.get('%s::promoted[%d]' % (f.body.owner if f.body.promoted is None else f.body.owner, op['promoted']))
+                pb = self.w.bodies.get('%s::promoted[%d]' % (op.get('promoted_owner') or f.body.owner, op['promoted']))
                 if pb is not None:
                     return self.eval_const_body(pb)
                 return TOP
@@ -1032,6 +1043,36 @@ class Interp:
             return doc_top()
         return TOP
 
+    def default_of_type(self, ty, depth=0):
+        """the value of <T as Default>::default() for the types whose default is structural (bool, integers, Option, vectors, local structs of those)"""
+        if ty is None or depth > 3:
+            return TOP
+        k = ty.get('k')
+        if k == 'bool':
+            return Const(False)
+        if k in ('uint', 'int'):
+            return Const(0)
+        if k == 'adt':
+            if ty['id'] in ('core::option::Option', 'std::option::Option') or ty.get('path', '').endswith('option::Option'):
+                return Agg('core::option::Option', 'None', [])
+            if re.search(r'(^|::)(Vec|SmallVec|VecDeque)$', ty.get('path', '')):
+                return Agg('vec', None, [Agg('vec-empty', None, [])])
+            a = adt_lookup(self.w, ty['id'])
+            if a and a.get('local'):
+                # a Default impl of the workspace (derived or hand-written): evaluate its body; it takes no argument
+                cands = [b for b in self.w.bodies.values() if b.arg_count == 0 and b.short.endswith('::default') and b.def_kind == 'AssocFn'
+                         and b.locals[0]['ty'].get('k') == 'adt' and b.locals[0]['ty'].get('id') == ty['id']]
+                if len(cands) == 1:
+                    sub = Machine()
+                    sub.frames.append(Frame(cands[0], {}))
+                    try:
+                        res = [r for r in self.run(sub) if hasattr(r, 'result')]
+                    except PathLimit:
+                        return TOP
+                    if len(res) == 1:
+                        return res[0].result
+        return TOP
+
     def havoc(self, args):
         for a in args:
             if isinstance(a, Ref):
@@ -1329,6 +1370,21 @@ class Interp:
             if m_none is None:
                 return some
             return [(m, some), (m_none, none)]
+        # --- std::mem: the value behind a &mut is read and replaced
+        if path in ('std::mem::take', 'core::mem::take') and isinstance(a0, Ref):
+            oldv = self.load(a0)
+            dty = f.body.locals[t['dest']['l']]['ty'] if t and not t['dest']['proj'] else None
+            self.store(a0, self.default_of_type(dty))
+            return oldv
+        if path in ('std::mem::replace', 'core::mem::replace') and isinstance(a0, Ref) and len(args) > 1:
+            oldv = self.load(a0)
+            self.store(a0, deref(args[1]) if not isinstance(args[1], Ref) else self.load(args[1]))
+            return oldv
+        if path in ('std::mem::swap', 'core::mem::swap') and len(args) > 1 and isinstance(a0, Ref) and isinstance(args[1], Ref):
+            x, y = self.load(a0), self.load(args[1])
+            self.store(a0, y)
+            self.store(args[1], x)
+            return NOTHING_VAL
         # --- Option helpers with constant receivers
         if path.startswith('std::option::Option::<T>::'):
             x = a0d
